@@ -56,8 +56,23 @@ class Spec:
         c = EP_CLASS[ep]
         return [c] + [s for s in SPECIFICITY if c in self.docs.get(s, [])]
 
-def ordered_files(files):
-    return [files[r] for r in ROLES if r in files]
+def ordered_files(case):
+    """The files of a case, highest priority first.  Ordinarily the working directory is a directory of its own (role
+    'cwd').  With case['cwd_at'] = <role> the program is started FROM that Jupyter configuration directory: its file is
+    then the working-directory file (first), and it is listed a second time at its Jupyter rank (where it can no longer
+    change anything: every assignment in it has already been decided by the first occurrence)."""
+    files = case['files']; at = case.get('cwd_at')
+    if at is None: return [files[r] for r in ROLES if r in files]
+    return [files[r] for r in [at] + ROLES[1:] if r in files]
+
+def expected_order(case):
+    at = case.get('cwd_at')
+    return EXPECTED_ORDER if at is None else [at] + EXPECTED_ORDER[1:]
+
+def body_of(case):
+    b = {'ep': case['ep'], 'files': case['files'], 'flags': case.get('flags', {})}
+    if case.get('cwd_at'): b['cwd_at'] = case['cwd_at']
+    return b
 
 def sec_value(files, sec, o):
     """('set', v) from the highest-priority file mentioning sec.o (null = unset -> None)"""
@@ -100,10 +115,10 @@ def canon(v): return json.dumps(v, sort_keys=True)
 
 def judge(spec, case, res, base):
     """All discrepancies between the real code's result and the documented rule: [(kind, option/path, got, want)]"""
-    ep = case['ep']; files = ordered_files(case['files']); flags = case.get('flags', {})
+    ep = case['ep']; files = ordered_files(case); flags = case.get('flags', {})
     out = []
-    if res.get('order') != EXPECTED_ORDER:
-        out.append(('search-order', '-', res.get('order'), EXPECTED_ORDER))
+    if res.get('order') != expected_order(case):
+        out.append(('search-order', '-', res.get('order'), expected_order(case)))
     cfg = res.get('cfg', {})
     if 'ok' not in cfg:
         return out + [('build_config-raises', '-', cfg.get('err'), None)]
@@ -190,6 +205,7 @@ def task_of(case):
         p, a = flag_argv(case['ep'], o, v); pre += p; argv += a
     t = {'op': 'resolve', 'ep': case['ep'], 'files': case['files'], 'pre': pre, 'argv': argv}
     if case.get('no_parser'): t['no_parser'] = True
+    if case.get('cwd_at'): t['cwd_at'] = case['cwd_at']
     return t
 
 # ------------------------------------------------------------------ case generation
@@ -241,6 +257,78 @@ def gen_illtyped(r, tables, spec, docs_sections):
         elif k == 'nested' and isinstance(f.get(s, {}), dict): f.setdefault(s, {})['Ignore'] = {'/n': {'deep': r.choice([None, 1])}, '/m': None}
     return case
 
+# ---- family: the working directory IS one of the Jupyter configuration directories (nbdiff run inside ~/.jupyter,
+# /etc/jupyter, $JUPYTER_CONFIG_PATH ...).  That directory is then searched twice; "a configuration file in the working
+# directory takes precedence over user-level and system-level files" must still hold, i.e. its file beats the
+# higher-ranked Jupyter directories, option by option and Ignore path by Ignore path.
+CWD_AT = ROLES[1:]
+IGN_VALUES = [True, False, ['collapsed', 'tags'], ['x'], []]
+def other_value(r, o, v):
+    """a value for option o different from v (for Ignore: the same paths with other values, sometimes one path more/less)"""
+    if o == 'Ignore':
+        d = {}
+        for p, x in v.items():
+            if len(v) > 1 and r.random() < 0.2: continue
+            d[p] = r.choice([y for y in IGN_VALUES + ([None] if r.random() < 0.15 else []) if canon(y) != canon(x)])
+        if r.random() < 0.3: d.setdefault(r.choice(['/cells/*/outputs', '/metadata/kernelspec', '/cells/*/source']), r.choice(IGN_VALUES))
+        return d
+    for _ in range(12):
+        w = file_value(r, o)
+        if canon(w) != canon(v): return w
+    return None
+
+def gen_cwd_at(r, tables, spec, ep, at, pdefs, dense=True):
+    """cwd = the Jupyter directory of role `at`; the same option(s) are (mostly) also set, to other values, in the
+    Jupyter directories ranked above it (and sometimes below), in the same or in another section of the entry point."""
+    relevant = spec.sections(ep)
+    k = ROLES.index(at)
+    higher, lower = ROLES[1:k], ROLES[k + 1:]
+    rivals = (r.sample(higher, r.randint(1, len(higher))) if higher else []) + [x for x in lower if r.random() < (0.5 if not higher else 0.3)]
+    files = {at: {}}
+    for _ in range(r.choice([1, 1, 2, 3])):
+        s = r.choice(relevant)
+        opts = tables['classes'].get(s, [])
+        if not opts: continue
+        o = r.choice(opts)
+        v = file_value(r, o)
+        if o != 'Ignore' and r.random() < 0.08: v = None
+        files[at].setdefault(s, {})[o] = v
+        for role in rivals:
+            if not dense and r.random() < 0.5: continue
+            s2 = s if r.random() < 0.75 else r.choice(relevant)
+            if o not in tables['classes'].get(s2, []): s2 = s
+            w = file_value(r, o) if v is None else other_value(r, o, v)
+            files.setdefault(role, {}).setdefault(s2, {})[o] = w
+    case = {'ep': ep, 'files': files, 'flags': {}, 'cwd_at': at}
+    if ep not in NO_PARSER and r.random() < 0.3:
+        flaggable = [o for o in pdefs[ep] if o != 'Ignore']
+        for o in r.sample(flaggable, min(len(flaggable), r.choice([1, 2]))):
+            try: case['flags'][o] = flag_value(r, o)
+            except KeyError: pass
+    return case
+
+def cwd_at_cases(r, tier, tables, spec, pdefs):
+    out = []
+    # systematic: every entry point x every Jupyter directory as cwd x one plain option and one Ignore map, each rival
+    # directory setting the same thing in the same section
+    for ep in sorted(EP_CLASS):
+        secs = [s for s in spec.sections(ep) if tables['classes'].get(s)]
+        for at in CWD_AT:
+            rivals = [x for x in ROLES[1:] if x != at]
+            for want_ign in (False, True):
+                cands = [(s, o) for s in secs for o in tables['classes'][s] if (o == 'Ignore') == want_ign]
+                if not cands: continue
+                s, o = r.choice(cands)
+                v = file_value(r, o)
+                files = {at: {s: {o: v}}}
+                for role in rivals: files[role] = {s: {o: other_value(r, o, v)}}
+                out.append({'ep': ep, 'files': files, 'flags': {}, 'cwd_at': at, 'src': 'cwd-at:systematic'})
+    n = 130 if tier == 'quick' else 1200
+    for i in range(n):
+        c = gen_cwd_at(r, tables, spec, r.choice(sorted(EP_CLASS)), r.choice(CWD_AT), pdefs, dense=(i % 3 != 2))
+        c['src'] = 'cwd-at:rand'; out.append(c)
+    return out
+
 CORPUS = [
     {'ep': 'nbdiff', 'files': {'cwd': {'Global': {'log_level': 'DEBUG'}}}, 'flags': {}, 'src': 'witness:global_section_refuted'},
     {'ep': 'server', 'files': {'cwd': {'Web': {'port': 9000}}}, 'flags': {}, 'src': 'witness:server_port_refuted'},
@@ -252,6 +340,13 @@ CORPUS = [
         'cwd': {'NbMerge': {'output_strategy': 'use-remote'}, 'Merge': {'Ignore': {'/cells/*/outputs': True}}},
         'envpath': {'NbMerge': {'merge_strategy': 'use-base', 'output_strategy': 'use-base'}},
         'user': {'Merge': {'ignore_transients': False, 'Ignore': {'/metadata': ['foo'], '/cells/*/outputs': False}}, 'NbMerge': {'input_strategy': 'use-local'}}}},
+    {'ep': 'nbdiff', 'cwd_at': 'system', 'flags': {}, 'src': 'cwd-is-system-dir', 'files': {
+        'system': {'NbDiff': {'color_words': True, 'Ignore': {'/cells/*/outputs': True, '/metadata': ['foo']}}},
+        'user': {'NbDiff': {'color_words': False, 'Ignore': {'/cells/*/outputs': False}}}}},
+    {'ep': 'nbmerge', 'cwd_at': 'user', 'flags': {}, 'src': 'cwd-is-user-dir', 'files': {
+        'user': {'NbMerge': {'merge_strategy': 'use-local'}, 'Merge': {'Ignore': {'/cells/*/metadata': ['tags']}}},
+        'envpath': {'NbMerge': {'merge_strategy': 'use-remote'}, 'Merge': {'Ignore': {'/cells/*/metadata': ['collapsed']}}},
+        'system': {'NbMerge': {'merge_strategy': 'use-base'}}}},
     {'ep': 'nbshow', 'files': {'cwd': {'Diff': {'Ignore': {'/cells/*/outputs': True}}, 'NbMerge': {'Ignore': {'/metadata': ['foo']}}}}, 'flags': {}, 'src': 'foreign-sections'},
 ]
 
@@ -268,6 +363,8 @@ def gen_cases(chk, tier, tables, spec, docs_sections, pdefs):
         c = gen_case(r, tables, spec, docs_sections, pdefs); c['src'] = 'rand'; cases.append(c)
     for _ in range(n // 8):
         c = gen_illtyped(r, tables, spec, docs_sections); c['src'] = 'illtyped'; cases.append(c)
+    # appended last so that the pre-existing families see the same random stream as before
+    cases += cwd_at_cases(r, tier, tables, spec, pdefs)
     return cases
 
 # ------------------------------------------------------------------ running the implementation
@@ -285,6 +382,8 @@ def base_of(res):
 # ------------------------------------------------------------------ shrinking (all failing cases in lock-step rounds)
 def candidates(case):
     out = []
+    if case.get('cwd_at'):
+        c = copy.deepcopy(case); del c['cwd_at']; out.append(c)
     for role in list(case['files']):
         c = copy.deepcopy(case); del c['files'][role]; out.append(c)
     for o in list(case.get('flags', {})):
@@ -338,15 +437,17 @@ def signature(spec, case, disc, res, bases, cache):
         ck = (kind, s, o)
         if ck not in cache:
             eps = [e for e in sorted(EP_CLASS) if EP_CLASS[e] in spec.docs.get(s, []) and not (kind == 'option' and e in NO_PARSER)]
-            rs = run_shared([task_of({'ep': e, 'files': case['files'], 'flags': {}}) for e in eps])
+            alt = lambda e: dict(body_of(case), ep=e, flags={})
+            rs = run_shared([task_of(alt(e)) for e in eps])
             cache[ck] = {e for e, r in zip(eps, rs)
-                         if not any(k2 == kind and o2 == o for k2, o2, _, _ in judge(spec, {'ep': e, 'files': case['files'], 'flags': {}}, r, bases[e]))}
+                         if not any(k2 == kind and o2 == o for k2, o2, _, _ in judge(spec, alt(e), r, bases[e]))}
         honoured = bool(cache[ck] - {case['ep']})
         return 'section-value-ignored:%s.%s%s' % (s, o, '@' + case['ep'] if honoured else '')
     if kind in ('ignore', 'cfg-ignore') and len(asg) == 1:
         return 'section-ignore-map-ignored:%s' % asg[0][1]
     secs = sorted({s for _, s, o2 in asg if o2 == o or kind in ('ignore', 'cfg-ignore')})
-    return 'wrong-resolution:%s:%s:%s:sections=%s:files=%d' % (kind, case['ep'], o, ','.join(secs), len(case['files']))
+    return 'wrong-resolution:%s:%s:%s:sections=%s:files=%d%s' % (kind, case['ep'], o, ','.join(secs), len(case['files']),
+                                                                 ':cwd-is-%s-dir' % case['cwd_at'] if case.get('cwd_at') else '')
 
 # ------------------------------------------------------------------ T1: the Coq model on the same cases
 def coq_str(s):
@@ -378,7 +479,7 @@ def model_check(cases, results, tables):
     for i, (c, res) in enumerate(zip(cases, results)):
         if 'cfg' not in res: continue
         ep = c['ep']
-        files = '[' + '; '.join(coq_json(f) for f in ordered_files(c['files'])) + ']'
+        files = '[' + '; '.join(coq_json(f) for f in ordered_files(c)) + ']'
         t = 'check_cfg %s %s %s %s' % (coq_str(ep), files, coq_res(res['cfg']), coq_res(res['cfg_none']))
         pr = res.get('parser')
         if pr is not None and 'ns' in pr:
@@ -447,7 +548,7 @@ def run(tier, seed):
         if c.get('illtyped'): continue
         secs = spec.sections(c['ep'])
         if any(s in secs for _, s, _ in assignments(c)):
-            nontrivial.add(canon([c['ep'], c['files'], c.get('flags', {})]))
+            nontrivial.add(canon([c['ep'], c['files'], c.get('flags', {}), c.get('cwd_at')]))
         for k, o, got, want in judge(spec, c, res, bases[c['ep']]):
             failing.append((i, (k, o), got, want))
     # shrink all discrepancies in lock-step (shared interpreters), group the minimal cases by structure, then confirm
@@ -456,14 +557,14 @@ def run(tier, seed):
     CAP = 800 if tier == 'quick' else 5000
     for i, d, got, want in failing[CAP:]:     # a flood of discrepancies: the tail is reported unshrunk
         chk.violation('not-shrunk:%s:%s:%s' % (d[0], cases[i]['ep'], d[1]),
-                      {'ep': cases[i]['ep'], 'files': cases[i]['files'], 'flags': cases[i].get('flags', {})},
+                      body_of(cases[i]),
                       {'discrepancy': d[0], 'option': d[1], 'implementation': got, 'documented_rule': want})
     failing_all, failing = failing, failing[:CAP]
     shrunk = shrink_all(spec, [(cases[i], d) for i, d, _, _ in failing], bases)
     T['shrink'] = time.time() - t; t = time.time()
     groups = {}
     for (case, d), (i, _, got, want) in zip(shrunk, failing):
-        key = canon([case['ep'], d, sorted((s, o) for _, s, o in assignments(case)), sorted(case.get('flags', {}))])
+        key = canon([case['ep'], d, sorted((s, o) for _, s, o in assignments(case)), sorted(case.get('flags', {})), case.get('cwd_at')])
         g = groups.setdefault(key, {'case': case, 'd': d, 'n': 0, 'orig': i, 'got': got, 'want': want})
         g['n'] += 1
     reps = list(groups.values())
@@ -475,14 +576,16 @@ def run(tier, seed):
         if not ds:
             i = g['orig']
             sig = 'result-depends-on-process-history:%s' % d[0]
-            body = {'ep': cases[i]['ep'], 'files': cases[i]['files'], 'flags': cases[i].get('flags', {}),
-                    'after': [{'ep': cases[j]['ep'], 'files': cases[j]['files']} for j in range(i % 12, i, 12)][-6:]}
+            body = dict(body_of(cases[i]),
+                        after=[{k: v for k, v in body_of(cases[j]).items() if k != 'flags'} for j in range(i % 12, i, 12)][-6:])
             detail = {'discrepancy': d, 'in_shared_process': g['got'], 'documented_rule': g['want']}
         else:
             sig = signature(spec, case, d, res, bases, hon_cache)
-            body = {'ep': case['ep'], 'files': case['files'], 'flags': case.get('flags', {})}
+            body = body_of(case)
             detail = {'discrepancy': d[0], 'option': d[1], 'implementation': ds[0][2], 'documented_rule': ds[0][3],
                       'sections_most_specific_first': spec.sections(case['ep'])}
+            if case.get('cwd_at'):
+                detail['working_directory'] = 'the %s-level Jupyter configuration directory itself (its file is the working-directory file)' % case['cwd_at']
         for _ in range(g['n']): chk.violation(sig, body, detail)
     T['signatures'] = time.time() - t; t = time.time()
     # ---- T1: model = implementation
@@ -498,13 +601,13 @@ def run(tier, seed):
     chk.notes.append('phase seconds: ' + ', '.join('%s=%.1f' % kv for kv in T.items()))
     chk.cov.update({
         'evaluations': len(cases), 'distinct_nontrivial': len(nontrivial),
-        'rule': 'entry point x config files in <=3 of 4 sandboxed directories (cwd, JUPYTER_CONFIG_PATH, JUPYTER_CONFIG_DIR, system) x flag subsets: corpus (refutation witnesses first), every (entry point, documented section, option) alone, random well-typed assignments (12% nulls, 15% sections of other entry points), ill-typed cases for T1 only; non-trivial = well-typed and at least one assignment in a section documented for the entry point, distinct by canonical JSON of (entry point, files, flags)',
+        'rule': 'entry point x config files in <=3 of 4 sandboxed directories (cwd, JUPYTER_CONFIG_PATH, JUPYTER_CONFIG_DIR, system) x flag subsets: corpus (refutation witnesses first), every (entry point, documented section, option) alone, random well-typed assignments (12% nulls, 15% sections of other entry points), ill-typed cases for T1 only, and the family "working directory = one of the three Jupyter directories" (every entry point x directory systematically with rival values in the other directories, plus random dense conflicts, 30% with flags); non-trivial = well-typed and at least one assignment in a section documented for the entry point, distinct by canonical JSON of (entry point, files, flags)',
         'input_distribution': hist, 'traces_validated_against_impl': compared,
         'model_impl_mismatches': len(bad) if bad is not None else None,
         'discrepancies_with_documented_rule': len(failing_all), 'distinct_minimal_discrepancies': len(reps), 'exhaustive': False,
     })
     for c in cases[:2] + cases[len(CORPUS) + 300:len(CORPUS) + 302] + cases[-1:]:
-        chk.sample({'ep': c['ep'], 'files': c['files'], 'flags': c.get('flags', {})})
+        chk.sample(body_of(c))
     return chk.finish('proof', ASSUME)
 
 def replay(path):
